@@ -1,12 +1,63 @@
 /-
-  Proofs/RenderMonRfc.lean — token scan of `Www, DD Mmm YYYY HH:MM:SS<offset>` (year ≥ 100), every offset spelling.
+  Proofs/RenderMonRfc.lean — token scan of `Www, DD Mmm YYYY HH:MM:SS<offset>` (year ≥ 100), every offset spelling,
+  through the schema (scan over the core with an arbitrary suffix behind it + `suffix_run` + `finish_tz`).
 -/
 import DateutilVerif.Proofs.RenderMon
+import DateutilVerif.Proofs.RenderSchema
 
 namespace PM
 open Py PT
 
-set_option maxHeartbeats 8000000 in
+def rfcYmd (y m d : Nat) : Ymd :=
+  { vals := [d, m, y], century := decide (100 < y), mIdx := some 1, yIdx := if 100 < y then some 2 else none }
+def rfcRes (w h mi s : Nat) : Res :=
+  { weekday := some w, hour := some h, minute := some mi, second := some s, microsecond := some 0 }
+
+set_option maxHeartbeats 4000000 in
+theorem run_rfc (cls : Char → CClass) [AsciiOK cls] (yf : Bool) (year century : Int) (W Mo : Token) (w y m d h mi s us : Nat)
+    (hW : WdWord cls (Info.default false yf year century) W w) (hMo : MonWord cls (Info.default false yf year century) Mo m)
+    (hv : (DT.mk y m d h mi s us).Valid) (hy : 100 ≤ y) (suf : List Token) (hs : Suf1 (Info.default false yf year century) suf) :
+    parseLoop cls (Info.default false yf year century) false (suf.length + 14) (suf.length + 14) 0 0
+      { l := monTokens (.rfc2822 w) W Mo y d h mi s ++ suf } =
+    parseLoop cls (Info.default false yf year century) false (suf.length + 14) suf.length 14 0
+      { l := monTokens (.rfc2822 w) W Mo y d h mi s ++ suf, ymd := rfcYmd y m d, skipped := [1, 2, 6], res := rfcRes w h mi s } := by
+  obtain ⟨⟨hy1, hy2, hm1, hm2, hd1, hd2⟩, hh1, hh2, hmi1, hmi2, hs1, hs2, hu1, hu2⟩ := hv
+  dsimp only at *
+  have hdim := (Cal.daysInMonth_bounds (y : Int) (m : Int)).2
+  mon_prep
+  obtain ⟨mf, mw, mm, mh, ma, mj, mdg⟩ := hMo
+  obtain ⟨wf, ww⟩ := hW
+  by_cases hgt : 100 < y
+  all_goals generalize suf.length = k
+  all_goals (rcases hs with rfl | ⟨a, rest, rfl, a1, a2, a3⟩ <;> psimpa [monTokens, y4, rfcYmd, rfcRes])
+
+set_option maxHeartbeats 4000000 in
+theorem fin_rfc (yf : Bool) (year century : Int) (o : Opts) (tznames : List Token) (tzi : TzInfos) (ho : PlainOpts o tzi) (dflt : DT)
+    (w y m d h mi s : Nat) (hv : (DT.mk y m d h mi s 0).Valid) (hy : 100 ≤ y) :
+    finishOf (Info.default false yf year century) o tznames tzi dflt (rfcYmd y m d) (rfcRes w h mi s) =
+      .ok { dt := DT.mk y m d h mi s 0, tz := .naive, tokens := none } := by
+  obtain ⟨⟨hy1, hy2, hm1, hm2, hd1, hd2⟩, hh1, hh2, hmi1, hmi2, hs1, hs2, hu1, hu2⟩ := hv
+  dsimp only at *
+  have hdim := (Cal.daysInMonth_bounds (y : Int) (m : Int)).2
+  obtain ⟨hfz, hfwt, hdf, htz1, htz2⟩ := ho
+  have us : Nat := 0
+  have hvalid : (DT.mk (y : Int) m d h mi s 0).valid = true := by
+    unfold DT.valid
+    exact decide_eq_true ⟨⟨hy1, hy2, hm1, hm2, hd1, hd2⟩, hh1, hh2, hmi1, hmi2, hs1, hs2, by simp, by simp⟩
+  have by' : y < 10000 := by omega
+  have n1 : ¬ (2147483647 : Int) < y := by omega
+  have n2 : ¬ (2147483647 : Int) < m := by omega
+  have n3 : ¬ (2147483647 : Int) < d := by omega
+  have n4 : ¬ (2147483647 : Int) < h := by omega
+  have n5 : ¬ (2147483647 : Int) < mi := by omega
+  have n6 : ¬ (2147483647 : Int) < s := by omega
+  have d31 : ¬ 31 < d := by omega
+  have d0 : ¬ d = 0 := by omega
+  have y31 : ¬ y ≤ 31 := by omega
+  have hyI : (100 : Int) ≤ (y : Int) := by omega
+  by_cases hgt : 100 < y
+  all_goals psimpa [finishOf, afterValidate, rfcYmd, rfcRes]
+
 theorem tok_mon_rfc (cls : Char → CClass) [AsciiOK cls] (yf : Bool) (year century : Int) (o : Opts) (tznames : List Token)
     (tzi : TzInfos) (ho : PlainOpts o tzi) (dflt : DT) (W Mo : Token) (w y m d h mi s us : Nat)
     (hW : WdWord cls (Info.default false yf year century) W w)
@@ -15,33 +66,12 @@ theorem tok_mon_rfc (cls : Char → CClass) [AsciiOK cls] (yf : Bool) (year cent
     parseResult cls (Info.default false yf year century) o tznames tzi dflt
       (monTokens (.rfc2822 w) W Mo y d h mi s ++ offTokens off) =
       .ok { dt := DT.mk y m d h mi s us, tz := if o.ignoretz then .naive else offDescr tznames off, tokens := none } := by
-  obtain ⟨⟨hy1, hy2, hm1, hm2, hd1, hd2⟩, hh1, hh2, hmi1, hmi2, hs1, hs2, hu1, hu2⟩ := hv
-  dsimp only at *
-  have hdim := (Cal.daysInMonth_bounds (y : Int) (m : Int)).2
-  obtain ⟨hfz, hfwt, hdf, htz1, htz2⟩ := ho
-  have hvalid : (DT.mk (y : Int) m d h mi s us).valid = true := by
-    unfold DT.valid
-    exact decide_eq_true ⟨⟨hy1, hy2, hm1, hm2, hd1, hd2⟩, hh1, hh2, hmi1, hmi2, hs1, hs2, hu1, hu2⟩
-  mon_prep
-  obtain ⟨mf, mw, mm, mh, ma, mj, mdg⟩ := hMo
-  obtain ⟨wf, ww⟩ := hW
   subst hus
-  have hvalid0 : (DT.mk (y : Int) m d h mi s 0).valid = true := by simpa using hvalid
-  by_cases hy100 : y = 100 <;>
-  rcases off with _ | sp | _ | ⟨sp, neg, oh⟩ | ⟨sp, neg, oh, om⟩ | ⟨sp, neg, oh, om⟩
-  all_goals (try subst hy100)
-  all_goals (try (have hgt : 100 < y := by omega))
-  all_goals (try (have hvalid100 : (DT.mk 100 (m : Int) d h mi s 0).valid = true := by simpa using hvalid))
-  all_goals (try cases sp) <;> (try cases neg)
-  all_goals (try simp only [Off.Dom] at hoff)
-  all_goals (try (have boh : oh < 100 := by omega))
-  all_goals (try (have bom : om < 100 := by omega))
-  all_goals (try (have hok := offsetOk_hm oh om (by omega) (by omega)))
-  all_goals (try (have hok := offsetOk_hm oh 0 (by omega) (by omega)))
-  all_goals (try (by_cases hz1 : oh = 0)) <;> (try (by_cases hz2 : om = 0))
-  all_goals (try subst hz1) <;> (try subst hz2)
-  all_goals
-    psimpa [monTokens, y4, offTokens, offDescr, Off.seconds, spT, sgn, utcOrLocal, off_zero_iff, off_zero_iff', off_zero_iff'']
-  all_goals (try (by_cases hig : o.ignoretz = true <;> by_cases hu : ['U', 'T', 'C'] ∈ tznames <;> simp [hig, hu]))
+  have hs : StrictOpts o tzi := ⟨ho.fz, ho.fwt, ho.tz1, ho.tz2⟩
+  have := tok_theorem cls false yf year century o tznames tzi hs dflt (monTokens (.rfc2822 w) W Mo y d h mi s) 14 rfl
+    (rfcRes w h mi s) (rfcYmd y m d) [1, 2, 6] (DT.mk y m d h mi s 0) off hoff
+    (run_rfc cls yf year century W Mo w y m d h mi s 0 hW hMo hv hy (offTokens off) (suf1_off false yf year century off))
+    rfl rfl (Or.inl rfl) (fin_rfc yf year century o tznames tzi ho dflt w y m d h mi s hv hy)
+  simpa [offZone] using this
 
 end PM
